@@ -35,6 +35,10 @@ CHECKS = {
    text="PlainDate::from_partial / with, PlainDateTime::from_partial / with, PlainTime::from_partial / with / new_with_overflow, ZonedDateTime::from_partial (fixed-offset zones) / with: every combination of {absent or a value} per field - year 8 values incl. the range ends and i32::MIN/MAX, month {0,1,2,12,13,255}, monthCode {M01,M02,M12,M13,M02L,M00,M99}, day {0,1,28..32,255}, hour {0,23,24,255}, minute/second {0,59,60,255}, sub-second {0,999,1000,65535} - x 24 receivers (month ends, leap days, range ends) x {constrain, reject, absent}. Oracle R10: supplied field else receiver's (month and monthCode merge as one field), constrain clamps month to 1..12 and day to the month length of the RESULTING year/month, reject = RangeError, month/monthCode contradiction or a code unknown to the calendar = RangeError, missing required field or empty record = TypeError, result outside the limits = RangeError; identity for every subset of a value's own fields; PlainDateTime::with keeps unsupplied time fields.",
    note="Trusted: R10 (ISO calendar). Unjudged: zero month/day (the ECMAScript layer rejects them before Temporal; the property sentence would clamp). A record that is both incomplete and invalid may raise either TypeError or RangeError. Era fields are exercised in C16. Known finding: ZonedDateTime::with is unimplemented.",
    ref="3/C17"),
+ "C18": dict(cat="model_checking", tech="bounded exhaustive route matrix and product sweeps on the real code (explicit enumeration of construction routes x values), differential between routes plus reference model",
+   text="For every (year, month) of the alphabet (53 years quick / ~1400 thorough incl. both range ends +-1, year 0, 9999/10000; months 0..13) EVERY construction route - constructor, 7 string shapes (YYYY-MM, YYYYMM, signed 6-digit year, full dates for several days, date-times, with [u-ca=iso8601]), PlainDate::to_plain_year_month from every day of the month, 5 field-record shapes x 2 overflow modes, with() - must give the canonical value: == and compare_iso equal and identical to_ixdtf_string under all 4 calendar display options; out-of-limit year-months must be RangeErrors on every route. All month-days 0..13 x 0..33 x overflow x reference year {absent, 1972, 2021, 2020} through the constructor, 5 string shapes, full-date strings and PlainDate::to_plain_month_day; canonical texts. Year-month add/subtract x 288 durations x overflow (weeks/days must be refused, result canonical, limits) and until/since for all ordered pairs (incl. values with an explicit reference day) x largest units, with a.add(a.until(b)) = b.",
+   note="Trusted: R10/R2. Unjudged: whole days hidden in time units for year-month arithmetic; the year-month -271821-04 as receiver or result of add/subtract (its first day is not a representable date, the specification's own algorithm fails there); zero month/day. Rounded year-month differences are covered under C08.",
+   ref="3/C18"),
 }
 
 NOT_APPLICABLE = {}
